@@ -13,6 +13,7 @@ The statements about `window` (emptiness test, fill origin), `count_covered` (ex
 (`fixes/C09-*.patch`); on the pinned tree `Extracted/RingBufferQuery.lean` differs and this file does not build.
 -/
 import Frequenz.Lemmas.RingBufferQuery
+import Frequenz.Lemmas.RingBufferTie
 
 open RingBuffer Extracted.RingBufferQuery
 
@@ -388,3 +389,109 @@ example :
 example :
     (run { align := 0, period := 1000000 } (State.init [(none : Option Nat)]) [(3000000, some 1)]).gaps = [(3, 3)] := by
   decide
+
+/-! ### Model is source
+
+`Extracted/RingBufferLoops.lean` is the machine translation of the WHOLE bodies of the methods of `buffer.py` and of
+`MovingWindow.at`, regenerated from the current source text on every run (`tools/extractors/ringbuffer_loops.py`: statement
+by statement; in-place mutation of the gap list through aliases as index updates, the `while` loop of `_cleanup_gaps` as
+a fuel-indexed recursion, `for`/`any`/`sum`/`min`/`next(… enumerate …)` as list operations, early returns, raised
+exceptions as `none`).  The hand-written model — about which every theorem above is stated — equals it. -/
+
+/-- **The model is the source.**
+(1) Update side, stored timestamps as slot numbers (`period = 1`, `_full_time_range = capacity`): `Gap.contains`,
+`is_missing`, `_remove_gap`, the `while` loop of `_cleanup_gaps` (for EVERY fuel, at any index `i = |pre|` with the
+elements before it final) and `_cleanup_gaps` itself, `_update_gaps` (all branches incl. the early return on a far jump),
+`update` on a non-fresh and on the fresh buffer (rejection = `IndexError`, container write at `to_internal_index`, new
+window bounds); `normalize_timestamp` in microseconds.
+(2) Query side on the state as the code holds it (microsecond timestamps, `Rep`): `count_valid`, `oldest_timestamp`,
+`newest_timestamp`, `count_covered`, `get_timestamp`, `window` for two datetimes and for two indices (ValueError /
+IndexError / the model's `windowTs`, both container types, with and without `force_copy` / fill value),
+`MovingWindow.at` for a datetime and for an index. -/
+theorem C09_model_is_source :
+    (∀ s e t : Int, Extracted.RingBufferLoops.contains s e t = decide (Extracted.RingBuffer.gapContains s e t))
+    ∧ (∀ (gaps : List Gap) (t : Int), Extracted.RingBufferLoops.isMissing gaps t = isMissing gaps t)
+    ∧ (∀ (gaps : List Gap) (t : Int), Extracted.RingBufferLoops.removeGap 1 gaps t = removeGap gaps t)
+    ∧ (∀ (o : Int) (fuel : Nat) (pre rest : List Gap),
+        (Extracted.RingBufferLoops.cleanupGaps_loop1 o fuel (pre ++ rest) pre.length).1 = pre ++ cleanupLoop o fuel rest)
+    ∧ (∀ (gaps : List Gap) (o : Int), Extracted.RingBufferLoops.cleanupGaps gaps o = cleanupGaps o gaps)
+    ∧ (∀ (fr : Int) (gaps : List Gap) (t newest sn o : Int) (rec : Bool),
+        Extracted.RingBufferLoops.updateGaps 1 fr gaps sn o t newest rec = updateGaps fr gaps t newest sn o rec)
+    ∧ (∀ (c : Cfg) (ts : Int), Extracted.RingBufferLoops.normalizeTimestamp c.period c.align ts = slotTime c (normSlot c ts))
+    ∧ (∀ (α : Type) (s : State α), s.cap = s.slots.length → 1 ≤ s.cap → ∀ n, s.newest = some n →
+        ∀ tsMax, oldestOf s.cap n ≠ tsMax → ∀ (t : Int) (isNone isNan : Bool) (base : α),
+        Extracted.RingBufferLoops.update 1 (s.cap : Int) 0 tsMax s.slots s.gaps n (oldestOf s.cap n) t isNone isNan base =
+          if (updateSlot s t (RingBufferTie.storedValue isNone isNan base)).2 = true then none
+          else some ((updateSlot s t (RingBufferTie.storedValue isNone isNan base)).1.slots,
+                     (updateSlot s t (RingBufferTie.storedValue isNone isNan base)).1.gaps, max n t,
+                     oldestOf s.cap (max n t)))
+    ∧ (∀ (α : Type) (s : State α), s.cap = s.slots.length → 1 ≤ s.cap → s.newest = none → s.gaps = [] →
+        ∀ (tsMax m t : Int), m ≤ t - s.cap → ∀ (isNone isNan : Bool) (base : α),
+        Extracted.RingBufferLoops.update 1 (s.cap : Int) 0 tsMax s.slots s.gaps m tsMax t isNone isNan base =
+          some ((updateSlot s t (RingBufferTie.storedValue isNone isNan base)).1.slots,
+                (updateSlot s t (RingBufferTie.storedValue isNone isNan base)).1.gaps, t, oldestOf s.cap t)
+        ∧ (updateSlot s t (RingBufferTie.storedValue isNone isNan base)).2 = false)
+    -- `update` in microseconds with `_update_gaps` as a parameter `upd`: rejection, container position, new bounds
+    -- and every argument handed to `_update_gaps` (the NORMALISED timestamp, the previous newest, "is missing")
+    ∧ (∀ (α : Type) (c : Cfg), 0 < c.period → ∀ (s : State α), s.cap = s.slots.length → 1 ≤ s.cap →
+        ∀ (n tsMax : Int), slotTime c (oldestOf s.cap n) ≠ tsMax →
+        ∀ (upd : Int → Int → List Gap → Int → Int → Int → Int → Bool → List Gap) (G : List Gap) (ts : Int)
+          (isNone isNan : Bool) (base : α),
+        Extracted.RingBufferLoops.updateAbs c.period ((s.cap : Int) * c.period) c.align tsMax upd s.slots G (slotTime c n)
+            (slotTime c (oldestOf s.cap n)) ts isNone isNan base =
+          if normSlot c ts < oldestOf s.cap n then none
+          else some (s.slots.set (wrapIdx s.cap (normSlot c ts)) (RingBufferTie.storedValue isNone isNan base),
+                     upd c.period ((s.cap : Int) * c.period) G (slotTime c (max n (normSlot c ts)))
+                       (slotTime c (oldestOf s.cap (max n (normSlot c ts)))) (slotTime c (normSlot c ts)) (slotTime c n)
+                       (RingBufferTie.storedValue isNone isNan base).isNone,
+                     slotTime c (max n (normSlot c ts)), slotTime c (oldestOf s.cap (max n (normSlot c ts)))))
+    ∧ (∀ (α : Type) (c : Cfg) (tsMin tsMax : Int) (s : State α), RingBufferTie.Rep c tsMin s →
+        let G := RingBufferTie.usGaps c s.gaps
+        let N := RingBufferTie.usNewest c tsMin s
+        let O := RingBufferTie.usOldest c tsMax s
+        Extracted.RingBufferLoops.countValid c.period c.align tsMin s.slots G N O = some (countValid s)
+        ∧ Extracted.RingBufferLoops.oldestTimestamp c.period c.align tsMin s.slots G N O = some ((oldestTs s).map (slotTime c))
+        ∧ Extracted.RingBufferLoops.newestTimestamp c.period c.align tsMin s.slots G N O = some ((newestTs s).map (slotTime c))
+        ∧ Extracted.RingBufferLoops.countCovered c.period c.align tsMin s.slots G N O = some (countCovered s)
+        ∧ (∀ i, Extracted.RingBufferLoops.getTimestamp c.period c.align tsMin s.slots G N O i
+                  = some ((getTimestamp s i).map (slotTime c)))
+        ∧ (∀ (isList fc : Bool) (start end_ : Int) (fill : Option (Option α)),
+            Extracted.RingBufferLoops.windowDt c.period c.align tsMin isList s.slots G N O start end_ fc fill =
+              if fc = false ∧ fill.isSome = true then none
+              else if windowTsRaises c s start end_ = true then none
+              else some (windowTs c s start end_ fill))
+        ∧ (∀ (isList fc : Bool) (i j : Option Int) (fill : Option (Option α)),
+            Extracted.RingBufferLoops.windowIdx c.period c.align tsMin isList s.slots G N O i j fc fill =
+              if fc = false ∧ fill.isSome = true then none
+              else if countCovered s = 0 then some []
+              else
+                match getTimestamp s (sliceIndices i j (countCovered s)).1,
+                      getTimestamp s (sliceIndices i j (countCovered s)).2 with
+                | some a, some b =>
+                  Extracted.RingBufferLoops.windowDt c.period c.align tsMin isList s.slots G N O
+                    (slotTime c a) (slotTime c b) fc fill
+                | _, _ => none)
+        ∧ (∀ ts, Extracted.RingBufferLoops.atTs c.period c.align tsMin s.slots G N O ts = RingBufferTie.atOpt (atTs c s ts))
+        ∧ (∀ i, Extracted.RingBufferLoops.atIdx c.period c.align tsMin s.slots G N O i = RingBufferTie.atOpt (atIndex s i))) :=
+  ⟨RingBufferTie.contains_eq, RingBufferTie.isMissing_eq, RingBufferTie.removeGap_eq, RingBufferTie.cleanupLoop_eq,
+   RingBufferTie.cleanupGaps_eq, RingBufferTie.updateGaps_eq, RingBufferTie.normalize_eq,
+   fun _ s hl hc n hn tsMax hm t a b x => RingBufferTie.update_slot_some s hl hc n hn tsMax hm t a b x,
+   fun _ s hl hc hn hg tsMax m t hm a b x => RingBufferTie.update_slot_fresh s hl hc hn hg tsMax m t hm a b x,
+   fun _ c hp s hl hc n tsMax hm upd G ts a b x => RingBufferTie.updateAbs_us c hp s hl hc n tsMax hm upd G ts a b x,
+   fun _ c tsMin tsMax s hR =>
+     ⟨RingBufferTie.countValid_us c tsMin tsMax s hR, RingBufferTie.oldestTs_us c tsMin tsMax s hR,
+      RingBufferTie.newestTs_us c tsMin tsMax s hR, RingBufferTie.countCovered_us c tsMin tsMax s hR,
+      RingBufferTie.getTimestamp_us c tsMin tsMax s hR,
+      fun l f a b x => RingBufferTie.windowDt_us c tsMin tsMax s hR l f a b x,
+      fun l f a b x => RingBufferTie.windowIdx_us c tsMin tsMax s hR l f a b x,
+      RingBufferTie.atTs_us c tsMin tsMax s hR, RingBufferTie.atIdx_us c tsMin tsMax s hR⟩⟩
+
+/-- Non-vacuity: the translated `_cleanup_gaps` (sort, `while` loop with trimming, merging, advancing) computes, and
+the representation hypothesis `Rep` of the query-side ties holds for the state of the example history. -/
+example : Extracted.RingBufferLoops.cleanupGaps [(5, 7), (1, 3), (3, 4)] 2 = [(2, 4), (5, 7)] := by decide
+
+example :
+    RingBufferTie.Rep { align := 0, period := 1000000 } (-1000000000000)
+      (run { align := 0, period := 1000000 } (State.init [none, none, none, none, (none : Option Nat)])
+        [(0, some 10), (1000000, some 11), (2000000, some 12), (3000000, some 13), (4000000, some 14), (2000000, none)]) :=
+  ⟨by decide, by decide, by decide, by decide⟩
